@@ -18,7 +18,18 @@ namespace TIV.C14
 theorem generated_shape :
     Generated.syncOps = syncOps ∧ Generated.startOps = startOps ∧
     Generated.wrappedClass = "multiprocessing.process.BaseProcess" ∧
-    Generated.childAdoption = ["run", "import"] := by decide
+    Generated.childAdoption = ["bootstrap", "import"] := by decide
+
+/-- CHILD CREATION is what `fk` says and nothing else: the hand-over is installed on
+    `BaseProcess.start`, the adoption on `BaseProcess._bootstrap` (what every start method calls in
+    the child and what a `Process` subclass overriding `run()` cannot bypass), and the package
+    registers NO at-fork hook (`os.register_at_fork`, `multiprocessing.util.register_after_fork`) that
+    could re-bind or re-count the lock in a forked child. -/
+theorem generated_child_creation :
+    Generated.wrappedMethods =
+      ["multiprocessing.process.BaseProcess._bootstrap <- _process_bootstrap_wrapper",
+       "multiprocessing.process.BaseProcess.start <- _process_start_wrapper"] ∧
+    Generated.atForkHooks = [] := by decide
 
 /-- every site of utils.py that touches the global `_tty_lock` is one the model accounts for (a new
     site, or a synchronized section with a single `with` item, breaks this). -/
